@@ -70,6 +70,9 @@ func oracleFor(op *Sexp, res string) []string {
 	if res == "panic" {
 		return []string{"panic: " + lastPanic}
 	}
+	if lastHeaderMsg != "" {
+		bad("%s", lastHeaderMsg)
+	}
 	switch op.head() {
 	case "alias":
 		return oracleAlias(op, res)
